@@ -115,7 +115,7 @@ def run_matecerts(run, pid, h, scen, randoms, lo, hi, budget, label, shorter=0):
     """Mate announcements of lo..hi moves: the harness finds a proof / refutation certificate, TraceSearch checks it node by
     node against Chess.tla and thereby decides the announcement (direction code -> spec with a checked witness)."""
     d = R.trace_dir(pid + "-" + label)
-    args = ["matecert", "--out", d, "--shards", vcommon.NCPU, "--seed", vcommon.seed(), "--randoms", randoms, "--lo", lo, "--hi", hi, "--budget", budget]
+    args = ["matecert", "--out", d, "--shards", vcommon.NCPU, "--seed", vcommon.seed(), "--randoms", randoms, "--lo", lo, "--hi", hi, "--budget", budget, "--node-cap", 20000]
     if scen:
         args += ["--scen", scen]
     if shorter:
@@ -349,6 +349,12 @@ def c11(tier, replay):
     run.cov["mate_lines_judged"] = totals.get("mates", 0)
     # longer announcements (3..6 moves): decided through checked certificates; scenarios = the ones above plus random small
     # endgames in which the mover has a forced mate in 3..6 (or the bare side is mated in 2..5), searched much deeper
+    # tempo endings in which the same position is reached at different plies inside the mating net (K+Q / K+R v K with the
+    # kings close): where a search that remembers scores across plies announces a mate too early (files mirrored too)
+    tempo = ["8/3K4/7k/1Q6/8/8/8/8 w - - 0 1", "8/8/8/8/5R2/8/4K1k1/8 w - - 0 1", "4K1k1/8/5R2/8/8/8/8/8 w - - 0 1",
+             "8/8/8/8/8/1q6/7K/3k4 b - - 0 1", "8/8/8/8/2r5/8/1K1k4/8 b - - 0 1"]
+    sc2 = json.load(open(scen))
+    json.dump(sc2 + [{"tag": "mate", "cmd": "position fen " + f} for f in tempo + [mirror_files(f) for f in tempo]], open(scen, "w"))
     t3, s3 = run_matecerts(run, "C11", h, scen, 70 if q else 1500, 3, 6, 250000 if q else 600000, "mcert")
     run.cov["mate_certificates"] = {"announcements_decided_by_a_checked_certificate": t3.get("mcert_proofs", 0) + t3.get("mcert_refutations", 0),
                                     "of_them_longer_than_3_moves": t3.get("mcert_beyond_3", 0), "certificate_nodes_checked_against_the_rules": t3.get("mcert_nodes", 0),
